@@ -5,8 +5,8 @@
    property's ghosts; Dev = {} (repaired design) must satisfy DeltaConservation, WindowIsPending,
    NothingBroken (exact delta values, cumulative = running total, abutting intervals) in every reachable
    state; with the deviations of the unchanged tree every broken clause must go through a listed deviation.
-2. spec -> code: behaviours printed by TLC (all to a small depth, a witness for every rare step, random
-   walks, shortest counterexamples of the as-implemented model) are executed on the REAL MeterProvider /
+2. spec -> code: behaviours printed by TLC (one per distinct state reached by a Collect within small bounds, a witness
+   for every rare step, random walks, shortest counterexamples of the as-implemented model) are executed on the REAL MeterProvider /
    Counter / UpDownCounter / MetricReader through the public API (harness/c06_sync.cc, ASan+UBSan, seeded
    concretisations) ...
 3. code -> spec: ... and so are long random histories (100-400 operations, 10-20 attribute sets, 1-4
@@ -91,7 +91,7 @@ def generate(ctx):
     # shortest histories on which the as-implemented model breaks a clause (directed at the defects)
     jobs += [M.witness_job(asimpl[k], "WitBad") for k in ("d", "dc", "dc2v")]
     nwit = len(jobs)
-    # all behaviours to a small depth
+    # one behaviour per distinct state reached by a Collect, small bounds
     small = [
         M.ModelCfg("T_d", "F_all", "AS_perm", handles=2, maxadd=2, maxcol=2),
         M.ModelCfg("T_dc", "F_all", "AS_perm", handles=2, maxadd=2, maxcol=2),
